@@ -37,6 +37,6 @@ Proof. exact same_key_within_half_tol. Qed.
 Print Assumptions C17_same_key_within_half_tol.
 
 Example C17grid_premises_satisfiable :
-  Qeq_bool (src_cc_key_candidate (5 # 4) (1 # 1)) (2 # 1) = true /\ Qeq_bool (src_cc_key_logged (7 # 4) (1 # 1)) (4 # 1) = true /\
-  rkey (half_tol (1 # 1)) [5 # 4; 7 # 4] = [2; 4].
+  Qeq_bool (src_cc_key_candidate (5 # 4)%Q (1 # 1)%Q) (2 # 1)%Q = true /\ Qeq_bool (src_cc_key_logged (7 # 4)%Q (1 # 1)%Q) (4 # 1)%Q = true /\
+  rkey (half_tol (1 # 1)%Q) [(5 # 4)%Q; (7 # 4)%Q] = [2; 4].
 Proof. vm_compute. repeat split. Qed.
